@@ -1,12 +1,14 @@
 import Driver.Cache
 import Driver.Verify
 import Driver.Jwt
+import Driver.Handler
 /-! Model driver: `driver <family>` reads trace lines on stdin and prints one prediction per step. -/
 def main (args : List String) : IO UInt32 := do
   match args with
   | ["cache"] => Driver.Cache.main
   | ["verify"] => Driver.Verify.main
   | ["jwt"] => Driver.Jwt.main
+  | ["handler"] => Driver.Handler.main
   | _ => do
     (← IO.getStderr).putStrLn "usage: driver <family>"
     return 2
